@@ -7,6 +7,9 @@ from contracts import atomic as m
 
 C04_LABELS = ('crash invariant', 'publication', 'normal exit', 'no unlink ever', 'only the part path', 'chmod never',
               'rename is', 'link is', 'returns a falsy')
+# clauses that matter to both properties (a reused, non-empty part file or a published partial body is a mixed/truncated
+# destination for C04 and a broken failure contract for C05)
+SHARED_LABELS = ('part path bound to a fresh, empty, open file', 'body raised: destination untouched')
 
 
 def is_c04(label):
@@ -14,7 +17,7 @@ def is_c04(label):
 
 
 def keep_c04(p):
-    return p.kind in ('cover', 'must-fail') or is_c04(p.label)
+    return p.kind in ('cover', 'must-fail') or is_c04(p.label) or any(k in p.label for k in SHARED_LABELS)
 
 
 def keep_c05(p):
